@@ -274,7 +274,8 @@ EXTRA_MODULES = {"C14": ["TB.Props.C14run"], "C03": ["TB.Props.C03frame"], "C17"
                  "C11": ["TB.Props.C01bytes", "TB.Props.C04h", "TB.Props.C04hist", "TB.Props.C02chain", "TB.Props.TopLevel"],
                  "C02": ["TB.Props.C02run", "TB.Props.C02chain", "TB.Props.TopLevel"], "C16": ["TB.Props.C16run", "TB.Props.C16total"],
                  "C04": ["TB.Props.C04a", "TB.Props.C04c", "TB.Props.C04h", "TB.Props.C04hist", "TB.Props.C06layout", "TB.Props.TopLevel"],
-                 "C15": ["TB.Props.C04a", "TB.Props.C04c", "TB.Props.C02chain"], "C12": ["TB.Props.C06layout"]}
+                 "C15": ["TB.Props.C04a", "TB.Props.C04c", "TB.Props.C02chain"], "C12": ["TB.Props.C06layout"],
+                 "C05": ["TB.Props.C05writes"]}
 
 PROPS = {
     "C01": dict(module="TB.Props.C01", theorems=["C01_write_sound", "C01_gate", "C01_writer_cursor", "C01_run"], clauses=["c01-"],
